@@ -20,5 +20,7 @@ w, s = orch.build_worker(sys.argv[1], "instr")
 print("instrumented worker built in %.1fs" % s)
 w, s = orch.build_worker(sys.argv[1], "race")
 print("race worker built in %.1fs" % s)
+w, s = orch.build_worker(sys.argv[1], "plainrace")
+print("plain race worker built in %.1fs" % s)
 PY
 echo setup done
